@@ -44,7 +44,12 @@ pub enum Op {
 }
 
 fn real(s: &MS) -> Matrix {
-    Matrix { data: Vector::new(s.d.iter().map(|&v| v as f64).collect::<Vec<f64>>()), nrows: s.r, ncols: s.c }
+    // through the public fields (a struct literal would stop compiling the day Matrix gains a private field)
+    let mut m = Matrix::new(vec![0.0], 1, 1);
+    m.data = Vector::new(s.d.iter().map(|&v| v as f64).collect::<Vec<f64>>());
+    m.nrows = s.r;
+    m.ncols = s.c;
+    m
 }
 fn canon(m: &Matrix) -> Option<MS> {
     let mut d = Vec::with_capacity(m.data.len());
@@ -197,11 +202,11 @@ fn apply(s: &MS, op: &Op) -> (Result<Matrix, String>, Option<Matrix>) {
         Op::HcatSelf => (guard(|| m.hcat(m.clone())), None),
         Op::VcatSelf => (guard(|| m.vcat(m.clone())), None),
         Op::HcatOther(k) => {
-            let o = Matrix { data: Vector::new((0..s.r * k).map(|t| 40.0 + t as f64).collect::<Vec<f64>>()), nrows: s.r, ncols: *k };
+            let o = Matrix::new((0..s.r * k).map(|t| 40.0 + t as f64).collect::<Vec<f64>>(), s.r as i32, *k as i32);
             (guard(|| m.hcat(o.clone())), None)
         }
         Op::VcatOther(k) => {
-            let o = Matrix { data: Vector::new((0..s.c * k).map(|t| 60.0 + t as f64).collect::<Vec<f64>>()), nrows: *k, ncols: s.c };
+            let o = Matrix::new((0..s.c * k).map(|t| 60.0 + t as f64).collect::<Vec<f64>>(), *k as i32, s.c as i32);
             (guard(|| m.vcat(o.clone())), None)
         }
         Op::Hrepeat2 => (guard(|| m.hrepeat(2)), None),
